@@ -422,6 +422,51 @@ func genC16() {
 			fail("C16: Start: auto-negotiation resume condition not found")
 		}
 	}
+	// clientdb.removeBidTemplate: which conditions return nil, and whether a
+	// missing template bucket (second terminal update) is tolerated
+	cdb := pkgFiles("clientdb")
+	var rbt []string
+	if fd := findFunc(cdb, "removeBidTemplate"); fd != nil {
+		for _, st := range fd.Body.List {
+			switch x := st.(type) {
+			case *ast.IfStmt:
+				ret := "?"
+				if len(x.Body.List) == 1 {
+					if r, ok := x.Body.List[0].(*ast.ReturnStmt); ok && len(r.Results) == 1 {
+						ret = exprString(r.Results[0])
+					}
+				}
+				rbt = append(rbt, "if "+strings.Join(strings.Fields(exprString(x.Cond)), " ")+" return "+ret)
+			case *ast.ReturnStmt:
+				if len(x.Results) == 1 {
+					rbt = append(rbt, "return "+strings.Join(strings.Fields(exprString(x.Results[0])), " "))
+				}
+			case *ast.AssignStmt:
+				if len(x.Rhs) == 1 {
+					if c, ok := x.Rhs[0].(*ast.CallExpr); ok {
+						rbt = append(rbt, exprString(x.Lhs[0])+" := "+exprString(c.Fun))
+					}
+				}
+			}
+		}
+	} else {
+		fail("C16: clientdb.removeBidTemplate not found")
+	}
+	l.p("def removeBidTemplateShape : List String := %s", leanStrList(rbt))
+	// DB.UpdateSidecar: the guard under which the template is removed
+	upd := ""
+	if fd := findFunc(cdb, "DB.UpdateSidecar"); fd != nil {
+		ast.Inspect(fd.Body, func(n ast.Node) bool {
+			if x, ok := n.(*ast.IfStmt); ok && strings.Contains(exprString(x.Cond), "IsTerminal") {
+				upd = strings.Join(strings.Fields(exprString(x.Cond)), " ")
+			}
+			return true
+		})
+	}
+	if upd == "" {
+		fail("C16: DB.UpdateSidecar: terminal-state guard not found")
+	}
+	l.p("def updateSidecarTemplateGuard : String := %q", upd)
 	l.p("def resumeRemap : List (Nat × Nat) := [%s]", remap)
 	l.p("def resumeCond : String := %q", autoCond)
 	l.p("def resumePackets : List String := %s", leanStrList(pkts))
